@@ -290,6 +290,11 @@ def finish(mod, ctx, wall):
 def main(argv):
     import argparse
     ap = argparse.ArgumentParser()
+    if argv and argv[0] == "--manifest":
+        from lsfverif.manifest_gen import generate
+        m = generate()
+        print("MANIFEST.json: %d checks, %d not_applicable" % (len(m["checks"]), len(m["not_applicable"])))
+        return 0
     ap.add_argument("check_id")
     ap.add_argument("--tier", default=os.environ.get("VERIF_TIER", "quick"), choices=["quick", "thorough"])
     ap.add_argument("--seed", type=int, default=int(os.environ.get("VERIF_SEED", "0") or 0))
